@@ -396,6 +396,18 @@ static std::pair<uintptr_t, uintptr_t> equivalentVariablesCacheKey(uintptr_t v1,
     return (v2 < v1) ? std::make_pair(v2, v1) : std::make_pair(v1, v2);
 }
 
+#ifdef LIBCELLML_VERIF
+// Verification hook (guarded, add-only): exposes the cache-key computation used by
+// AnalyserModel::areEquivalentVariables() so that a harness can evaluate it on
+// constructed addresses without dereferencing them.
+void verifEquivalentVariablesCacheKey(uintptr_t v1, uintptr_t v2, uintptr_t *out)
+{
+    auto key = equivalentVariablesCacheKey(v1, v2);
+    out[0] = key.first;
+    out[1] = key.second;
+}
+#endif
+
 bool AnalyserModel::areEquivalentVariables(const VariablePtr &variable1,
                                            const VariablePtr &variable2)
 {
